@@ -349,6 +349,39 @@ func TestIDStrings(t *testing.T) {
 			}
 		}
 	}
+	// the same strings where they actually occur: as the last field of a Full
+	// Sensor Record that ends with the string (exact-capacity slice) or is
+	// followed by further bytes
+	for _, en := range []enc{{ref.EncBCDPlus, 16}, {ref.Enc6Bit, 64}, {ref.Enc8Bit, 256}, {ref.EncUnicode, 256}} {
+		for n := 0; n <= 31; n++ {
+			if (en.e == ref.Enc8Bit || en.e == ref.EncUnicode) && n == 1 {
+				continue
+			}
+			s := ref.IDString{Enc: en.e, Codes: make([]byte, n)}
+			for i := range s.Codes {
+				s.Codes[i] = byte((i*7 + 1) % en.codes)
+				if en.e == ref.Enc8Bit || en.e == ref.EncUnicode {
+					s.Codes[i] = byte(0x41 + i%26)
+				}
+			}
+			for _, trailing := range []int{0, 1, 5} {
+				f := ref.FSR{Number: byte(n), M: 1, ID: s, Trailing: make([]byte, trailing)}
+				body := f.Body()
+				var r ipmi.FullSensorRecord
+				var err error
+				noPanic(t, "TestIDStrings", n, func() { err = r.DecodeFromBytes(body[:len(body):len(body)], gopacket.NilDecodeFeedback) })
+				ev.Eval()
+				c := map[string]any{"enc": en.e, "chars": n, "trailingBytes": trailing, "where": "Full Sensor Record"}
+				if err != nil {
+					fail(t, "TestIDStrings", c, "record with this ID string does not decode: "+err.Error())
+				}
+				if want := string(s.Runes()); r.Identity != want {
+					fail(t, "TestIDStrings", c, fmt.Sprintf("Identity %q, want %q", r.Identity, want))
+				}
+				ev.NonTrivial(fmt.Sprintf("idfsr|%d|%d|%d", en.e, n, trailing))
+			}
+		}
+	}
 	ev.Sample(map[string]any{"domain": "idstring", "example": "6-bit codes [0x21 0x22] -> \"AB\" packed as 61 08"})
 }
 
